@@ -39,9 +39,9 @@ PROPS["C05"] = {
 }
 PROPS["C19"] = {
     "technique": 'Lean 4 theorems on similarity (symmetry, range, identity) and on rename pairing + similarity and diff-report differentials',
-    "lean_modules": ["SfwModel.Props.C19", "SfwModel.Props.C09"],
+    "lean_modules": ["SfwModel.Props.C19", "SfwModel.Props.C09", "SfwModel.Props.C19Limits"],
     "suites": [{"name": "sim", "quick": 1500, "thorough": 40000}, {"name": "diffreport", "quick": 8, "thorough": 150, "timeout": 3000}],
-    "required_theorems": ["C19_sim_symm", "C19_sim_range", "C19_sim_self", "C19_sim_eq_one_of_eq_features",
+    "required_theorems": ["C19_threshold_matches_source", "C19_sim_symm", "C19_sim_range", "C19_sim_self", "C19_sim_eq_one_of_eq_features",
                           "C19_mapSim_symm", "C19_typeListSim_symm", "C19_pairs_injective", "C19_pairs_above_threshold",
                           "C19_rename_found"],
     "level_text": "Kernel-checked over exact rationals: TopologySimilarity is symmetric, lies in [0,1] and is exactly 1 whenever the name-free features agree (so for a renamed copy); the model is tied to topology.TopologySimilarity by a differential on generated topology pairs in both argument orders, with the same three clauses checked on the real floats.",
@@ -80,9 +80,10 @@ PROPS["C14"] = {
     "trusted_base": ["filepath.Abs = lexical clean of cwd-joined path", "host observations (lib paths exist, EvalSymlinks results) gathered by the harness with the standard library"],
 }
 PROPS["C13"] = {
+    "lean_modules": ["SfwModel.Props.C13", "SfwModel.Props.C13Limits"],
     "technique": 'Lean 4 proof of fail-closed decision logic and envelope integrity + scripted HTTP provider driving the real audit path, byte-level payload differential',
     "suites": [{"name": "audit", "quick": 500, "thorough": 12000, "timeout": 3000}],
-    "required_theorems": ["C13_fail_closed", "C13_faults_never_pass", "C13_retry_bound", "C13_exit_total", "C13_verdict_exact",
+    "required_theorems": ["C13_retry_limit_matches_source", "C13_fail_closed", "C13_faults_never_pass", "C13_retry_bound", "C13_exit_total", "C13_verdict_exact",
                           "C13_lex_roundtrip", "C13_payload_lines", "C13_markers_once", "C13_truncate", "C13_escape_no_newline"],
     "level_text": "Kernel-checked: exit 0 implies no high risk, or a sentinel text decoding to safe=true AND a main text decoding to verdict exactly \"MATCH\" that passes validation (for every response sequence of both calls); faults never pass; at most 4 requests per call; the JSON-quoted commit message lexes back to exactly itself and stops at its own closing quote (cannot close the string), every line of the enveloped JSON starts with '{', '}' or a space so no line can be a BEGIN/END marker, markers occur exactly once. Tie: a scripted local HTTP provider drives the real llm.CallLLM and cli.RunAudit; verdict, exit, request count and the payload BYTES are compared with the Lean model (which contains a JSON parser, Go's string encoder, cleanJSONMarkdown's regex semantics and encoding/json's struct decoding rules), and 'well-formed MATCH' is known by construction of each scenario.",
     "level_note": "Trusted: Lean kernel; Go's encoding/json and regexp as modelled (validated byte-for-byte by the differential); the Gemini path (genai SDK) is exercised only through the shared parsing/validation code, its retry loop is not scripted; net/http transport behaviour.",
@@ -100,9 +101,10 @@ PROPS["C07"] = {
     "trusted_base": ["pebble.Batch.Commit(Sync) is atomic and durable", "vfs.NewStrictMem drop-unsynced semantics / SIGKILL process-death semantics"],
 }
 PROPS["C18"] = {
+    "lean_modules": ["SfwModel.Props.C18", "SfwModel.Props.C18Limits"],
     "technique": 'Lean 4 theorems on migration/export, truncation and the atomic-replace protocol + every-byte truncation and strace correspondence',
     "suites": [{"name": "migrate", "timeout": 3000}],
-    "required_theorems": ["C18_migrate_eq", "C18_migrate_inv", "C18_export_migrate", "C18_get_after_add", "C18_get_after_batch",
+    "required_theorems": ["C18_batch_size_matches_source", "C18_migrate_eq", "C18_migrate_inv", "C18_export_migrate", "C18_get_after_add", "C18_get_after_batch",
                           "C18_json_get_after_add", "C18_json_get_after_batch", "C18_full_file_ok", "C18_truncation_reported",
                           "C18_atomic_replace"],
     "level_text": "Kernel-checked: migration (AddSignatures over batches of 1000) imports exactly the last version of every ID for lists of ANY length and export returns them sorted by ID field for field; get-after-add (single and batch) on both backend models; the token-level decode loop never reports success with fewer signatures than the file holds, for every cut; a system-call trace that follows the temp-file/fsync/close/rename protocol leaves old-or-new content after a crash at any point. Tie: generated lists (sizes around the 1000 boundary, repeated IDs within and across batches, unicode) through the real MigrateFromJSON/ExportToJSON vs the store model and a last-wins oracle; EVERY byte truncation of small files vs the token model; jsondb add/get histories; SaveDatabase under strace checked by the executable protocol predicate.",
@@ -173,8 +175,8 @@ PROPS["C02"] = {
     "technique": 'Lean 4 theorems on each normalisation of the Lean canonicaliser (tied byte for byte to the real one) + refactoring catalogue on generated Go with real fingerprints',
     "also": ["C01"],   # the shared canon correspondence suite tags its violations C01
     "suites": [{"name": "refactor", "timeout": 3000}, {"name": "canon", "timeout": 3000}],
-    "lean_modules": ["SfwModel.Props.C02"],
-    "required_theorems": ["C02_self_reference_name_free", "C02_commutative_operands_exchange", "C02_noncommutative_keeps_order",
+    "lean_modules": ["SfwModel.Props.C02", "SfwModel.Props.C02Limits"],
+    "required_theorems": ["C02_default_policy_matches_source", "C02_self_reference_name_free", "C02_commutative_operands_exchange", "C02_noncommutative_keeps_order",
                           "C02_flip_decision", "C02_flip_meets", "C02_flip_idempotent", "C02_string_literals_abstracted",
                           "C02_big_int_literals_abstracted", "C02_small_range"],
     "level_text": "Kernel-checked on the Lean canonicaliser (which reproduces the real CanonicalIR byte for byte on 900+ functions on every run, from an export that carries no local, parameter, label or position names): each normalisation of the catalogue is a theorem about the function that implements it - self/closure references are printed without the function's name; a commutative BinOp prints the same text for both operand orders; a swap is recorded exactly for >=/> and prints the opposite test with exchanged successors, which is how the opposite spelling prints (and < / <= are fixed points); under the default policy every string literal and every integer literal outside [-16,16] is abstracted in EVERY usage context. Behavioural tie: generated functions (straight-line, branching, nested loops, slices, strings, calls, closures, recursion, methods) and a catalogue of hand-shaped specials on defined types, methods, labels and closures are refactored (rename locals/params/labels/function, reformat, reorder, flip, commute, big-int and string literal replacement; singly and composed) and the real fingerprints must be equal.",
@@ -210,8 +212,8 @@ PROPS["C04"] = {
 PROPS["C16"] = {
     "technique": 'Lean 4 proof that the walker collects exactly the declared files (any tree) and of slot/strict logic + on-disk tree differential and go/parser coverage oracle',
     "suites": [{"name": "walk", "quick": 150, "thorough": 3000, "timeout": 3000}],
-    "lean_modules": ["SfwModel.Props.C16"],
-    "required_theorems": ["C16_collect_iff", "C16_collected_are_files", "C16_collect_sublist", "C16_one_slot_per_file",
+    "lean_modules": ["SfwModel.Props.C16", "SfwModel.Props.C16Limits"],
+    "required_theorems": ["C16_size_guard_matches_source", "C16_collect_iff", "C16_collected_are_files", "C16_collect_sublist", "C16_one_slot_per_file",
                           "C16_error_reported", "C16_strict_fails_iff", "C16_no_silent_drop_partial",
                           "C16_panic_drops_file_counterexample"],
     "level_text": "Kernel-checked on the walker model over arbitrary directory trees (mutual inductive Tree/Forest, any depth and width): a file is collected IF AND ONLY IF it is a non-test .go file with no vendor or hidden directory between the target and itself; collection is a sub-sequence of the walk (order kept, nothing twice); every collected file gets exactly one result slot; a file with an error is visible in its slot and sets hasErrors; strict mode fails iff there are no files or some file has an error. Tie: random trees are materialised on disk and the real cli.CollectFiles is compared with the Lean walker and with an independent declarative oracle; generated modules (nested packages, methods incl. generic receivers, nested closures, generic functions, package-level function literals, init, test-named files, vendor/hidden directories, oversize / syntax-error / type-error / build-tag-excluded / empty files) go through the real ProcessFilesParallel and RunCheckLogic and every go/parser FuncDecl-with-body and FuncLit must be reported with its file and line, every unanalysable file must carry an error, strict must fail exactly when one does.",
@@ -223,8 +225,8 @@ PROPS["C17"] = {
     "technique": "Lean 4 cost-bound proof for the zipper's matching loops + total (terminating) model of every guarded traversal + operation counter on adversarial families",
     "also": ["C01"],   # the shared canon correspondence suite tags its violations C01
     "suites": [{"name": "dos", "timeout": 3000}, {"name": "canon", "timeout": 3000}],
-    "lean_modules": ["SfwModel.Props.C17"],
-    "required_theorems": ["C17_bucket_capped", "C17_scan_cost", "C17_matchUsers_cost", "C17_propagate_cost",
+    "lean_modules": ["SfwModel.Props.C17", "SfwModel.Props.C17Limits"],
+    "required_theorems": ["C17_limits_match_model", "C17_bucket_capped", "C17_scan_cost", "C17_matchUsers_cost", "C17_propagate_cost",
                           "C17_propagate_cost_MaxCandidates", "C17_uncapped_quadratic"],
     "level_text": "Kernel-checked cost bound of the zipper's matching loops for every fingerprint function, equivalence relation and referrer structure: a bucket never exceeds the cap, one matchUsers call makes at most |old users| x cap areEquivalent calls, the whole propagation at most cap x (referrer slots of the queued values); without the cap the cost is exactly n^2. Every traversal of the Lean canonicaliser (renamer with depth and cycle guard, computeSCEV with depth and size guard, iterative Tarjan, loop-depth limit) is a total Lean function, i.e. terminates by the kernel-checked termination argument that uses the code's own guards, and the model takes each guard at the same point as the real code on guard-crossing inputs (canon suite). Tie: adversarial families at growing sizes, each in a child process with a 90 s budget; the areEquivalent counter (hook) must stay below the proved bound evaluated on the real functions; no panic; OVERSIZED marker beyond the block cap; token-mutated sources must not crash.",
     "level_note": "PARTIAL: absence of panics and wall-clock completion are runtime facts, exercised on the families and mutated sources, not proved; memory use is not measured. A genuine defect was found by this suite and repaired (SCEV trees of shared DAGs).",
